@@ -1,8 +1,10 @@
 #!/bin/bash
-# tryseed.sh <dir with patch.diff> <PID> : apply a seeded change to /repo, run the quick check, undo
+# tryseed.sh <dir with patch.diff> <PID> : run the quick check of PID on a scratch copy of /repo's sources with the seeded change applied
+# (scratch copy instead of `git -C /repo apply` so that concurrently running agents that read /repo/include are not disturbed)
 d=$1; pid=$2
-git -C /repo apply $d/patch.diff || { echo "APPLY FAILED"; exit 3; }
-cd /verif && IORA_VERIF_NO_EVIDENCE=1 ./check $pid --tier quick > /tmp/tryseed.$$.out 2>&1; rc=$?
-git -C /repo checkout -- . 
-grep -E "VIOLATION|ANALYSIS-BROKEN|rule=" /tmp/tryseed.$$.out | cut -c1-300 | head -8
-echo "rc=$rc"; rm -f /tmp/tryseed.$$.out
+s=$(mktemp -d /tmp/tryseed-XXXX)
+cp -r /repo/include /repo/src $s/
+( cd $s && patch -p1 -s --fuzz=3 < $d/patch.diff ) || { echo "APPLY FAILED"; rm -rf $s; exit 3; }
+cd /verif && IORA_REPO=$s IORA_VERIF_CACHE=$s/.cache IORA_VERIF_OUT=$s/out IORA_VERIF_NO_EVIDENCE=1 ./check $pid --tier quick > $s/out.txt 2>&1; rc=$?
+grep -E "VIOLATION|ANALYSIS-BROKEN|rule=" $s/out.txt | grep -v KNOWN-FINDING | sed "s#$s#/repo#g" | cut -c1-300 | head -8
+echo "rc=$rc"; rm -rf $s
